@@ -745,6 +745,7 @@ package cache
 //@   ensures [C18.build.nostat] f.stat == nil ==> noMetric()
 //@   ensures [C05.build.errs.repok] (f.config.FailedUpdateTTL > -1 ==> repOK(f.Errors.shardedMap)) && errorsOnly(f)
 //@   oncall Write [C05.build.fail.ttl] ttlOf(callarg1) == 0
+//@   replayfor C05.build.fail.ttl failttl
 //@   modifies @builder @backendwrite @stat @log @clock @errcache H|time.Duration|*
 
 // waitForValue: returns what the owner of the key lock published before closing the channel.
@@ -937,6 +938,7 @@ package cache
 //@   ensures [C18.build.nostat] f.stat == nil ==> noMetric()
 //@   ensures [C05.build.errs.repok] (f.config.FailedUpdateTTL > -1 ==> repOK(f.Errors.shardedMapOf)) && errorsOnlyOf(f)
 //@   oncall Write [C05.build.fail.ttl] ttlOf(callarg1) == 0
+//@   replayfor C05.build.fail.ttl failttl
 //@   modifies @builder @backendwriteof @stat @log @clock @errcacheof H|time.Duration|*
 
 //@ func (*FailoverOf[V]).waitForValue
